@@ -34,6 +34,7 @@ type Fn struct {
 	// AtomRename maps normalised atom keys to role names (see Roles).
 	AtomRename func(string) string
 	defCache map[*types.Var]defInfo
+	strictLoop bool
 }
 
 // Vertex kinds.
